@@ -207,6 +207,8 @@ func scenarios(thorough bool) []scenario {
 		bp = 2
 	}
 	out = append(out, scenario{Name: "A+A' snappy, buffer-method points", Insts: []inst{w("mini", 1, 0), w("mini", 1, 1)}, Mode: pool.ReusePoison, Bound: bp, BufPoints: true})
+	out = append(out, scenario{Name: "A+B gzip, buffer-method points", Insts: []inst{w("mini", 2, 0), w("flat3", 2, 0)}, Mode: pool.Reuse, Bound: 1, BufPoints: true})
+	out = append(out, scenario{Name: "A+C uncompressed, buffer-method points", Insts: []inst{w("mini", 0, 0), r("mini", 0)}, Mode: pool.Reuse, Bound: 1, BufPoints: true})
 	return out
 }
 
